@@ -75,10 +75,11 @@ def oracle_grid(ctx, nelx, nely, nelz, ndof, d):
     return None
 
 
-def impl_shape(dim, s, p):
+def impl_shape(dim, s, p, int_pos=False):
     pm = _pm()
     d = pm.DomainDefinition(1, 1, 0 if dim == 2 else 1, *[float(v) for v in s])
-    return d.eval_shape_fun(np.array(p, dtype=float)), d.eval_shape_fun_der(np.array(p, dtype=float)), d
+    pos = np.array(p, dtype=int) if int_pos else np.array(p, dtype=float)
+    return d.eval_shape_fun(pos), d.eval_shape_fun_der(pos), d
 
 
 def oracle_shape(dim, s, p, d):
@@ -162,14 +163,30 @@ def correspondence(ctx):
         else:
             s = [ctx.rng.uniform(0.05, 7.0) for _ in range(dim)]
             p = [ctx.rng.uniform(-0.5, 0.5) * s[a] for a in range(dim)]
-        r = call_impl(impl_shape, dim, s, p)
+        int_pos = False
+        if exact and t % 6 == 0:
+            # whole-number points passed as an INTEGER array (as ElementAverage does) on elements wider than 2:
+            # includes faces / edges / corners (coordinate exactly +-size/2)
+            s = [float(ctx.rng.choice([2, 4, 8, 16])) for _ in range(dim)]
+            p = [float(ctx.rng.randint(-int(s[a] // 2), int(s[a] // 2))) for a in range(dim)]
+            int_pos = True
+        elif exact and t % 6 == 2:
+            # points ON the boundary of the element (faces, edges, corners)
+            p = [ctx.rng.choice([-0.5, 0.5, ctx.rng.randint(-8, 8) / 16]) * s[a] for a in range(dim)]
+        r = call_impl(impl_shape, dim, s, p, int_pos)
         if r[0] == "err":
             ctx.disagree("shape", {"dim": dim, "s": s, "p": p}, r[1], "ok", r[2])
             continue
         N, dN, d = r[1]
+        ctx.branch("shape.intpos" if int_pos else "shape.floatpos")
         why = oracle_shape(dim, s, p, d)
+        if not why and int_pos:
+            # the values for an integer-typed point must be those of the same point given as floats
+            Nf, dNf = d.eval_shape_fun(np.array(p, dtype=float)), d.eval_shape_fun_der(np.array(p, dtype=float))
+            if not (np.array_equal(N, Nf) and np.array_equal(dN, dNf)):
+                why = f"integer-typed evaluation point gives N = {np.asarray(N).tolist()} but the same point as floats gives {Nf.tolist()}"
         if why:
-            ctx.oracle_fail(why, {"op": "shape", "dim": dim, "s": s, "p": p})
+            ctx.oracle_fail(why, {"op": "shape", "dim": dim, "s": s, "p": p, "int_pos": int_pos})
         cases.append({"m": "c13.shape", "dim": dim, "s": qlist(s), "p": qlist(p)})
         impls.append((N, dN))
         modes.append(exact)
